@@ -5,16 +5,33 @@ hosts (USER_PUNCH, USER_PRINT, CALCULATE_VALUES, RATES) and every delivered valu
 reference interpreter `mc/oracles/basic_ref.py` (1e-12 relative, the statement's tolerance).
 
 Parts (each a completed bound):
-  A  numeric expressions: all operator trees of depth <= 2 over 15 binary operators and a leaf set, all unary functions
-     on leaves and depth-1 trees, all unparenthesised operator pairs `a op1 b op2 c`;
-  B  string functions over a 6-string set;
-  C  control skeletons: all forests of <= 2 (quick) / <= 3 (thorough) constructs from a 39-construct alphabet;
+  A  numeric expressions: all operator trees of depth <= 2 over 15 binary operators and a leaf set (4 leaves quick, 6
+     thorough), all 15 unary functions on leaves and depth-1 trees, all unparenthesised operator pairs `a op1 b op2 c`;
+     every expression is evaluated once by the reference and batched (one depth-1 row = one program per host);
+  B  string functions over a 6-string set; ill-typed expressions must be BASIC errors;
+  C  control skeletons: all forests of <= 2 (quick) / <= 3 (thorough) constructs from a 39-construct alphabet; the whole
+     hosted program text is interpreted by the reference, two consecutive runs sharing the PUT memory;
   D  malformed programs: every single-token deletion / adjacent-token swap of the part-C programs of size 1 (quick) /
      <= 2 (thorough); in the thorough tier the size-1 mutants are also run under ASan+UBSan (variant san).
+     A mutant the reference rejects must give a BASIC error (rc != 0); one it accepts must deliver the reference values;
+     never a crash, hang, process exit or C++ exception out of RunString.
 
-Programs whose result the documentation leaves open, or whose result is ill-conditioned with respect to the last bits
-of an inexact elementary operation, are recognised by the reference (`Unspecified`) and are not part of the claim; they
-are counted in the evidence.
+Not part of the claim (recognised by the reference as `Unspecified`, counted in the evidence, never judged):
+  * forms on which BASIC dialects disagree and the PHREEQC manual is silent: a unary sign directly before `^` (-2^2),
+    NOT directly before an unparenthesised operator expression, chained `^`, 0^0, x/0, MOD of negative / fractional
+    operands, logical operators on non-integers, half-integer subscripts, STEP 0, unbalanced FOR/NEXT inside the body of a
+    zero-trip loop; the generator never writes these unparenthesised, only mutants can contain them;
+  * values whose result is ill-conditioned with respect to the last bits of an inexact elementary operation.
+Calibration decisions (rule R5; each was an alarm of the first version that the statement does not support):
+  * items of a PRINT / PUNCH list may be juxtaposed without a separator (classic PRINT lists; all values are delivered);
+  * DATA items are only looked at when a READ reaches them (an unread malformed item is not an error);
+  * a mutant that is malformed only in a line that is never executed may or may not be diagnosed (the library finds
+    some of these when it tokenises the program): both outcomes are accepted in part D, counted as
+    `mut_error_in_unexecuted_line`;
+  * DIM of an already dimensioned array is a BASIC error in the reference and in the library (part C programs that
+    repeat a DIM inside a loop are judged as "both must reject").
+Defect models (`quirks` of the reference: "mod_residue", "on_gosub_frame") never influence a verdict; they are evaluated
+only *after* a mismatch to give all consequences of one mechanism one fingerprint.
 """
 import itertools
 import math
@@ -286,6 +303,7 @@ def judge(host, lines, kinds, res, problems, tag, stats, nruns=2, bad=None, ref=
     if st in ("unspecified", "steplimit"):
         return st
     failed = res["rc"] != 0
+    stats["runs_basic_error" if failed else "runs_completed_rc0"] = stats.get("runs_basic_error" if failed else "runs_completed_rc0", 0) + 1
     if st == "error":
         if not failed:
             problems.append(("malformed-accepted host=%s ref=%s" % (host, errclass(detail)),
@@ -627,22 +645,6 @@ def run_expr_case(case):
     return {"case": case, "problems": dedupe(problems), "ops": counter[0], "states": [], "n_states": len(good),
             "outcome": core.sha(repr([show(v) for v in vals]) + repr(outcome)), "script": case_script(problems),
             "sample": {"case": case, "expressions": good[:3], "reference": [show(v) for v in vals[:3]]}, "stats": stats}
-
-
-def mod_residue_tag(expr, res):
-    """Narrow tag for the one mechanism seen on the unchanged tree: a MOD b with b dividing a delivers ~1e-14, not 0."""
-    m = re.match(r"^\((\d+) MOD (\d+)\)$", expr)
-    if not m:
-        return ""
-    a, b = int(m.group(1)), int(m.group(2))
-    try:
-        got = res["runs"][0][0] if not isinstance(res["runs"][0], tuple) else res["runs"][0][1][0]
-        got = float(got)
-    except Exception:
-        return ""
-    if b > 0 and a % b == 0 and 0 < abs(got) < 1e-13 * max(a, 1):
-        return " exact-multiple-gives-1e-14-residue"
-    return ""
 
 
 def dedupe(problems):
@@ -1052,6 +1054,7 @@ def run_mut_case(case):
     problems, stats = [], {}
     ops = 0
     outcomes = []
+    msamples = []
     ncompleted = 0
     for (li, j, kind), ml in mutants(lines):
         st0, ref, detail = reference_runs("punch", ml, 1)
@@ -1081,7 +1084,11 @@ def run_mut_case(case):
             else:
                 problems.append(("mut %s stmt=%s%s" % (base, stmt_of(ml[li], ""), " variant=san" if variant == "san" else ""), what))
         outcomes.append((res.get("rc"), errmsg(res.get("err", "")) if res.get("rc") else "ok"))
+        if len(msamples) < 4:
+            msamples.append({"mutated line": ml[li], "reference": st0, "library rc": res.get("rc"),
+                             "library": errmsg(res.get("err", "")) if res.get("rc") else repr(res.get("runs", [])[:1])[:120]})
     return {"case": case, "problems": dedupe(problems), "ops": ops, "states": [core.sha(repr((forest, variant)))],
+            "sample": {"case": case, "base program": lines, "first mutants": msamples},
             "outcome": core.sha(repr(outcomes)), "outcomes": sorted(set(o[1] for o in outcomes)), "script": case_script(problems, variant),
             "stats": stats, "n_mut": len(outcomes), "n_completed": ncompleted}
 
@@ -1113,10 +1120,16 @@ class TapPool(object):
 
     def __init__(self, pool, ev, totals):
         self.pool, self.ev, self.totals = pool, ev, totals
+        self.nsamp = {}
 
     def map(self, f, items, chunksize=1, ordered=False):
         for r in self.pool.map(f, items, chunksize, ordered):
             if isinstance(r, dict):
+                smp = r.pop("sample", None)          # two verbatim samples per part (core would keep the first six cases only)
+                part = r["case"]["part"] + str(r["case"].get("size", ""))
+                if smp and self.nsamp.get(part, 0) < 2:
+                    self.nsamp[part] = self.nsamp.get(part, 0) + 1
+                    self.ev.samples.append(smp)
                 for k, v in r.get("stats", {}).items():
                     self.totals[k] = self.totals.get(k, 0) + v
                 self.ev.n_states_extra += r.get("n_states", 0)
@@ -1127,29 +1140,38 @@ class TapPool(object):
             yield r
 
 
+def ev_not_completed(totals):
+    return totals.get("ref_unspecified", 0) + totals.get("ref_steplimit", 0) + totals.get("mut_unspecified", 0) + totals.get("mut_steplimit", 0)
+
+
 def run(tier):
     ev = core.Evidence(PROP, tier)
     findings = core.Findings(PROP)
     ev.assumptions = [
-        "truth value of a relation is 1 (implementation-defined; classic BASIC uses -1); NOT/AND/OR/XOR are bitwise on integers",
-        "STR$ and PRINT format numbers as %20.0f (integers) / %20.12e with -high_precision true (format taken from the implementation)",
+        "taken from the implementation: the truth value of a relation is 1 (classic BASIC uses -1); NOT/AND/OR/XOR are bitwise on integers",
+        "taken from the implementation: STR$ and PRINT format numbers as %20.0f (integers) / %20.12e with -high_precision true",
+        "taken from the implementation: undimensioned arrays have the default bound 10; IF c THEN <line number> is a GOTO; "
+        "DIM of an already dimensioned array is an error; RESTORE n positions at the first DATA statement at or after line n",
         "a printed number is compared with half a unit of its 13th significant digit added to the 1e-12 relative tolerance",
-        "undimensioned arrays have the classic default bound 10; IF c THEN <line number> is a GOTO",
         "operator precedence of the reference: ^ > unary - > * / MOD > + - > relations > NOT > AND > OR XOR, left associative; "
-        "forms on which BASIC dialects disagree (chained ^, MOD next to * or /, OR next to XOR, unary minus or NOT directly "
-        "before a tighter operator, 0^0, x/0, MOD of negative / fractional operands, logical operators on non-integers, "
-        "half-integer subscripts, LOG/SQRT outside their domain, non-finite results) are outside the claim",
+        "forms on which BASIC dialects disagree (chained ^, a unary sign directly before ^, NOT directly before an unparenthesised "
+        "operator expression, 0^0, x/0, MOD of negative / fractional operands, logical operators on non-integers, half-integer "
+        "subscripts, STEP 0, LOG/SQRT outside their domain, non-finite results) are outside the claim (library: -2^2 = 4, NOT 1 = 1 is 0)",
         "values whose reference uncertainty (inexact ^, EXP, LOG, SIN, ... followed by cancellation or a discrete decision) "
         "exceeds 2e-13 relative are not judged (counted as ill-conditioned)",
-        "SAVE in RATES is observed as -KIN_DELTA of a reactant with m0 = 1 over one 1 s step (SAVE value scaled by TIME)",
+        "items of PRINT / PUNCH lists may be juxtaposed without separators; DATA items are evaluated only when read; a malformed "
+        "statement in a line that is never executed may or may not be diagnosed (part D)",
+        "SAVE in RATES is observed as -KIN_DELTA of a reactant with m0 = 1 over one 1 s step (SAVE value scaled by TIME); values leave "
+        "CALCULATE_VALUES / RATES programs through PUT slots 9000.. read back by a USER_PUNCH program",
         "STOP is not in the documented statement table and is not generated; line numbers are never mutated",
-        "mini database data/c17/mini.dat (water only) loads without error; LoadDatabaseString returns the instance to the fresh state",
+        "mini database data/c17/mini.dat (water only) loads without error; every case starts from a new instance",
+        "defect models of the reference (MOD residue 1e-14, GOSUB frame of ON..GOSUB) are used only to name a mismatch, never for a verdict",
     ]
     totals = {}
     drv.exe("rel")               # (re)build the library and the driver before the deadline clock starts
     real_pool = core.Pool()
     pool = TapPool(real_pool, ev, totals)
-    dl = core.Deadline(170 if tier == "quick" else 1700)
+    dl = core.Deadline(150 if tier == "quick" else 840)
 
     only = os.environ.get("C17_PARTS")          # development aid: run only the bounds whose name starts with one of these letters
 
@@ -1191,7 +1213,17 @@ def run(tier):
     ev.extra["alphabet"] = {"binary_operators": BINOPS, "unary": UNARY, "leaves": LEAVES[tier], "strings": STRINGS,
                             "constructs": ALPHABET, "hosts": list(HOSTS)}
     ev.extra["lattice"] = dict(sorted(totals.items()))
-    ev.not_completed = totals.get("ref_unspecified", 0) + totals.get("ref_steplimit", 0) + totals.get("mut_unspecified", 0) + totals.get("mut_steplimit", 0)
+    ev.extra["summary"] = {
+        "lattice_points (expressions with a defined reference value + skeleton programs + mutant base programs)": len(ev.states) + ev.n_states_extra,
+        "engine_runs": ev.transitions,
+        "judged_runs_completed_rc0": totals.get("runs_completed_rc0", 0),
+        "judged_runs_ending_in_a_BASIC_error": totals.get("runs_basic_error", 0),
+        "values_compared_with_the_reference": totals.get("judged", 0),
+        "values_not_judged_ill_conditioned": totals.get("ill", 0) + totals.get("expr_ill", 0),
+        "expressions_outside_the_claim (Unspecified)": totals.get("expr_unspecified", 0),
+        "programs_outside_the_claim (Unspecified / step limit)": ev_not_completed(totals),
+    }
+    ev.not_completed = ev_not_completed(totals)
     n_judged = totals.get("judged", 0)
     if ev.exhaustive:            # vacuity guards (a deadline-cut run is reported as such, not as a broken check)
         if n_judged < 1000:
